@@ -7,6 +7,7 @@ global lock is held), and every action only touches the per-key mutex of its own
 -/
 import Lockable.Proofs.NoPanic
 import Lockable.Props.C01
+import Lockable.Proofs.Commute
 namespace Lockable
 
 /-- No lost wake-up, state form: in every reachable state a free per-key mutex has no sleeping waiter —
@@ -211,6 +212,15 @@ theorem C03_never_all_sleeping (kind : Kind) (as : List Act) (h : Nat) (hd : Han
     subst hm'
     exact b4 a1
   · exact ⟨h, ⟨hd, hh⟩, hs⟩
+
+/-- **Keys are independent, operationally**: per-key operations (try, enqueue, acquire, every guard method, the unlock stamp) of two
+handles on DIFFERENT keys commute — same resulting state whichever runs first, and each answers the same as if the other had
+not happened. Holding, waiting for or operating on one key neither delays nor influences operations on another key. -/
+theorem C03_per_key_ops_commute (o₁ o₂ : KeyOp) (h₁ k₁ h₂ k₂ : Nat) (hh : h₁ ≠ h₂) (hk : k₁ ≠ k₂) (s : State)
+    (hs1 : hkey (s.hs h₁) = some k₁) (hs2 : hkey (s.hs h₂) = some k₂) :
+    (step (step s (o₂.act h₂)).1 (o₁.act h₁)).1 = (step (step s (o₁.act h₁)).1 (o₂.act h₂)).1 ∧
+    (step (step s (o₂.act h₂)).1 (o₁.act h₁)).2 = (step s (o₁.act h₁)).2 :=
+  ⟨keyOps_commute o₁ o₂ h₁ k₁ h₂ k₂ hh hk s hs1 hs2, keyOps_out_indep o₁ o₂ h₁ k₁ h₂ k₂ hh hk s hs1 hs2⟩
 
 /-- non-vacuity: two waiters behind a holder are served in arrival order -/
 example :
